@@ -163,6 +163,16 @@ def alphabet(model, profile):
         m2 = ops.enabled(model, step)
         if m2 is not None:
             out.append((step, m2))
+    # names that collide with the *default* boot catalog names of add_eltorito in one namespace only
+    a = ops.add_fp(model.cfg, 'A', '/', 'c1')
+    for mode in ('jonly', 'uonly', 'iso'):
+        cat = ops.add_fp(model.cfg, 'CAT', '/', 'c1s3', mode)
+        if cat is None:
+            continue
+        for step in ([cat], [a, cat]):
+            m2 = ops.enabled(model, step)
+            if m2 is not None:
+                out.append((step, m2))
     return out
 
 
